@@ -412,7 +412,7 @@ impl TmplGroup {
                 w.expr_stmt(|w| {
                     write!(
                         w,
-                        "R[{path}]=D({path},(require,exports,module)=>{{{}\n}})",
+                        "R[{path}]=D({path},(require,exports,module)=>{{\n{}\n}})",
                         script,
                         path = gen_lit_str(p)
                     )?;
